@@ -53,6 +53,7 @@ var (
 	fDeadline = flag.Duration("deadline", 0, "override the per scenario wall clock cap")
 	fVerbose  = flag.Bool("v", false, "print every distinct outcome")
 	fTicks    = flag.Int("ticks", 0, "override the number of ticks")
+	fEndBy    = flag.Int64("endby", 0, "internal: unix time at which the exploration budget of the whole run ends")
 )
 
 // ------------------------------------------------------------- bodies
@@ -99,14 +100,27 @@ func boundOf(sc scen.Scenario, thorough bool) int {
 	return sc.Bound[0]
 }
 
-func deadlineOf(thorough bool) time.Duration {
+// budgetOf is the wall clock budget of the whole exploration (all scenarios, all shards); shards
+// that start late get what is left (at least 2 s).  Hitting it gives exhaustive=false, never an alarm.
+func budgetOf(thorough bool) time.Duration {
 	if *fDeadline > 0 {
 		return *fDeadline
 	}
 	if thorough {
-		return 10 * time.Minute
+		return 14 * time.Minute
 	}
-	return 50 * time.Second
+	return 70 * time.Second
+}
+
+func deadlineOf(thorough bool) time.Duration {
+	if *fEndBy > 0 {
+		d := time.Until(time.Unix(*fEndBy, 0))
+		if d < 2*time.Second {
+			d = 2 * time.Second
+		}
+		return d
+	}
+	return budgetOf(thorough)
 }
 
 // ------------------------------------------------------------- child
@@ -168,7 +182,7 @@ type replayObj struct {
 	Detail   string  `json:"detail,omitempty"`
 }
 
-func runShards(self string, sc scen.Scenario, tier string, nshards int, sem chan struct{}) (gs.Report, error) {
+func runShards(self string, sc scen.Scenario, tier string, nshards int, sem chan struct{}, endBy int64) (gs.Report, error) {
 	reps := make([]gs.Report, nshards)
 	errs := make([]error, nshards)
 	var wg sync.WaitGroup
@@ -182,9 +196,7 @@ func runShards(self string, sc scen.Scenario, tier string, nshards int, sem chan
 			if *fBound >= 0 {
 				args = append(args, "-bound", strconv.Itoa(*fBound))
 			}
-			if *fDeadline > 0 {
-				args = append(args, "-deadline", fDeadline.String())
-			}
+			args = append(args, "-endby", strconv.FormatInt(endBy, 10))
 			if *fTicks > 0 {
 				args = append(args, "-ticks", strconv.Itoa(*fTicks))
 			}
@@ -806,6 +818,8 @@ func main() {
 	}
 	results := make([]res, len(scs))
 	raceReport := racePass(run)
+	endBy := time.Now().Add(budgetOf(thorough)).Unix()
+	run.Set("exploration_budget_s", budgetOf(thorough).Seconds())
 	sem := make(chan struct{}, *fShards)
 	var wg sync.WaitGroup
 	for i, sc := range scs {
@@ -813,7 +827,7 @@ func main() {
 		go func(i int, sc scen.Scenario) {
 			defer wg.Done()
 			t0 := time.Now()
-			r, err := runShards(self, sc, run.Tier, *fShards, sem)
+			r, err := runShards(self, sc, run.Tier, *fShards, sem, endBy)
 			results[i] = res{r, err, time.Since(t0).Seconds()}
 		}(i, sc)
 	}
